@@ -26,7 +26,7 @@ Sections
                 additional_nonlinear_ops={cls: _nonlinear} as documented
   near          references = x + eps * noise, eps in 3e-4 .. 1e-2: every activation input differs by a small
                 amount that lies OUTSIDE the gradient-fallback band, so the rescale rule (not the gradient)
-                must be used; tolerance 1e-11 relative (observed residuals ~1e-15)
+                must be used; tolerance 1e-12 relative (largest residual observed over 2300 such cases: 3e-15)
   pool2d        random MaxPool2d (int / tuple kernel, stride, padding, dilation, ceil_mode) on the
                 (channel, position) plane
   args          models with additional forward arguments (args=(a,) / (a, b)), batches that cut through
@@ -639,7 +639,7 @@ def check_net(case, info=None):
             d = (parts[0] - b).abs()
             if bool(((d > 0) & (d < 1e-5)).any()):
                 band = True
-    rel = 1e-4 if band else (1e-11 if case['refs'] == 'near' else 1e-9)
+    rel = 1e-4 if band else (1e-12 if case['refs'] == 'near' else 1e-9)
     terms = (X[:, None] - refs_r) * mult
     lhs_r = terms.sum(dim=(2, 3))
     rhs_r = fx[:, None] - fr_r
